@@ -271,12 +271,18 @@ theorem logaddexp_val (x y : R) :
     (Gen.logaddexp x y).val = max x.val y.val + (Gen.log1pexp (R.mk (-|x.val - y.val|))).val := by
   unfold Gen.logaddexp
   simp only [RealLike.gt, R.lt_iff]
-  split_ifs with h
+  split_ifs with h h2
   · have e : y - x = R.mk (-|x.val - y.val|) := R.ext' (by simp [abs_of_pos (sub_pos.mpr h)])
     rw [R.add_val, e, max_eq_left h.le]
-  · have h' := not_lt.mp h
-    have e : x - y = R.mk (-|x.val - y.val|) := R.ext' (by simp [abs_of_nonpos (sub_nonpos.mpr h')])
-    rw [R.add_val, e, max_eq_right h']
+  · have e : x - y = R.mk (-|x.val - y.val|) := R.ext' (by simp [abs_of_neg (sub_neg.mpr h2)])
+    rw [R.add_val, e, max_eq_right h2.le]
+  · -- equal arguments: `x + ln 2`, and `log1pexp 0 = ln 2`
+    have hxy : x.val = y.val := le_antisymm (not_lt.mp h) (not_lt.mp h2)
+    have h0 : R.mk (-|x.val - y.val|) = R.mk 0 := R.ext' (by simp [hxy])
+    have h37 : -37 < (R.mk 0).val := by show (-37:ℝ) < 0; norm_num
+    have h18 : (R.mk 0).val ≤ 18 := by show (0:ℝ) ≤ 18; norm_num
+    rw [R.add_val, R.ln2_val, h0, log1pexp_branch_exact (R.mk 0) h37 h18, hxy, max_self]
+    simp only [Real.exp_zero]; norm_num
 
 -- @site logaddexp
 /-- exact-arithmetic error of `logaddexp` on reals: at most `e^{-2|x-y|}` (only the branch `x ≤ -37`
@@ -315,7 +321,7 @@ theorem logaddexp_fin (a b : ℝ) :
     Gen.logaddexp (fin a) (fin b) = fin (Gen.logaddexp (R.mk a) (R.mk b)).val := by
   unfold Gen.logaddexp
   simp only [RealLike.gt, X.lt_fin, decide_eq_true_eq, R.lt_iff, X.fin_sub_fin, log1pexp_fin,
-    X.fin_add_fin]
+    X.ln2_eq, X.fin_add_fin]
   split_ifs <;> rfl
 
 -- @site logaddexp
@@ -330,22 +336,40 @@ example : Gen.logaddexp (fin 2) ninf = fin 2 ∧ Gen.logaddexp ninf (fin 2) = fi
   ⟨logaddexp_fin_ninf 2, logaddexp_ninf_fin 2⟩
 
 -- @site logaddexp
-/-- DEFECT CANDIDATE.  `ln(e^{-inf} + e^{-inf}) = ln 0 = -inf`, but the code evaluates
-    `y + log1pexp(x - y)` with `x - y = -inf - -inf = NaN`: `logaddexp(-inf, -inf) = NaN`
-    (and not `-inf`, which is what `logsumexp [-inf, -inf]` returns). -/
-theorem logaddexp_counterexample :
-    Gen.logaddexp ninf ninf = nan ∧ Gen.logaddexp ninf ninf ≠ Gen.logsumexp [ninf, ninf] := by
-  have h : Gen.logaddexp ninf ninf = nan := by simp [Gen.logaddexp, Gen.log1pexp]
-  refine ⟨h, ?_⟩
-  rw [h, logsumexp_all_ninf _ (by simp)]; simp
+/-- both arguments `-inf`: `ln(0 + 0) = -inf` (equal-arguments branch `x + ln 2`; the unrepaired code
+    evaluated `-inf - -inf` and returned NaN) -/
+theorem logaddexp_ninf_ninf : Gen.logaddexp ninf ninf = ninf := by
+  simp [Gen.logaddexp]
+
+example : Gen.logaddexp ninf ninf = Gen.logsumexp [ninf, ninf] := by
+  rw [logaddexp_ninf_ninf, logsumexp_all_ninf _ (by simp)]
 
 -- @site logaddexp
-/-- `logaddexp x y = ln(eˣ + eʸ)` for `x, y ∈ ℝ ∪ {-inf}` not both `-inf` (with `e^{-inf} = 0`):
-    the result is finite, within `e^{-2|x-y|} ≤ e⁻⁷⁴` of the exact value, and exact when one argument is
-    `-inf` or `|x-y| < 37`. -/
-theorem logaddexp_spec (x y : X) (hx : IsFinOrNinf x) (hy : IsFinOrNinf y)
-    (hxy : ¬ (x = ninf ∧ y = ninf)) :
-    ∃ r, Gen.logaddexp x y = fin r ∧
+/-- equal real arguments: exactly `x + ln 2` -/
+theorem logaddexp_R_self (x : R) : (Gen.logaddexp x x).val = x.val + Real.log 2 := by
+  simp [Gen.logaddexp, RealLike.gt]
+
+-- @site logaddexp
+/-- equal finite arguments: exactly `a + ln 2` … -/
+theorem logaddexp_fin_self (a : ℝ) : Gen.logaddexp (fin a) (fin a) = fin (a + Real.log 2) := by
+  simp [Gen.logaddexp, RealLike.gt]
+
+-- @site logaddexp
+/-- … which is `ln(2eᵃ) = ln(eᵃ + eᵃ)` -/
+theorem logaddexp_fin_self_eq_log (a : ℝ) :
+    Gen.logaddexp (fin a) (fin a) = fin (Real.log (2 * Real.exp a)) := by
+  rw [logaddexp_fin_self, Real.log_mul (by norm_num) (Real.exp_pos a).ne', Real.log_exp, add_comm]
+
+example : Gen.logaddexp (fin 0) (fin 0) = fin (Real.log 2) := by
+  rw [logaddexp_fin_self]; norm_num
+
+-- @site logaddexp
+/-- `logaddexp x y = ln(eˣ + eʸ)` for all `x, y ∈ ℝ ∪ {-inf}` (with `e^{-inf} = 0`, `ln 0 = -inf`):
+    both `-inf` ↦ `-inf`; otherwise the result is finite, within `e^{-2|x-y|} ≤ e⁻⁷⁴` of the exact value, and
+    exact when one argument is `-inf` or `|x-y| < 37` (equal arguments included). -/
+theorem logaddexp_spec (x y : X) (hx : IsFinOrNinf x) (hy : IsFinOrNinf y) :
+    if fins [x, y] = [] then Gen.logaddexp x y = ninf
+    else ∃ r, Gen.logaddexp x y = fin r ∧
       |r - Real.log ((fins [x, y]).map Real.exp).sum| ≤ Real.exp (-74) ∧
       ((x = ninf ∨ y = ninf ∨ |x.toReal - y.toReal| < 37) →
         r = Real.log ((fins [x, y]).map Real.exp).sum) := by
@@ -356,14 +380,19 @@ theorem logaddexp_spec (x y : X) (hx : IsFinOrNinf x) (hy : IsFinOrNinf y)
     cases y with
     | nan => exact absurd hy (by simp)
     | pinf => exact absurd hy (by simp)
-    | ninf => exact absurd ⟨rfl, rfl⟩ hxy
-    | fin b => exact ⟨b, logaddexp_ninf_fin b, by simp [(Real.exp_pos _).le], by simp⟩
+    | ninf => rw [if_pos (by simp)]; exact logaddexp_ninf_ninf
+    | fin b =>
+      rw [if_neg (by simp)]
+      exact ⟨b, logaddexp_ninf_fin b, by simp [(Real.exp_pos _).le], by simp⟩
   | fin a =>
     cases y with
     | nan => exact absurd hy (by simp)
     | pinf => exact absurd hy (by simp)
-    | ninf => exact ⟨a, logaddexp_fin_ninf a, by simp [(Real.exp_pos _).le], by simp⟩
+    | ninf =>
+      rw [if_neg (by simp)]
+      exact ⟨a, logaddexp_fin_ninf a, by simp [(Real.exp_pos _).le], by simp⟩
     | fin b =>
+      rw [if_neg (by simp)]
       refine ⟨_, logaddexp_fin a b, ?_, ?_⟩
       · simp only [fins_cons_fin, fins_nil, List.map_cons, List.map_nil, List.sum_cons, List.sum_nil,
           add_zero]
@@ -381,17 +410,46 @@ theorem logaddexp_spec (x y : X) (hx : IsFinOrNinf x) (hy : IsFinOrNinf y)
 
 example : ∃ r, Gen.logaddexp (fin (-3)) (fin (-7)) = fin r ∧
     |r - Real.log ((fins [fin (-3), fin (-7)]).map Real.exp).sum| ≤ Real.exp (-74) := by
-  obtain ⟨r, h1, h2, _⟩ := logaddexp_spec (fin (-3)) (fin (-7)) (by simp) (by simp) (by simp)
+  have h := logaddexp_spec (fin (-3)) (fin (-7)) (by simp) (by simp)
+  rw [if_neg (by simp)] at h
+  obtain ⟨r, h1, h2, _⟩ := h
   exact ⟨r, h1, h2⟩
 
 -- @site logaddexp
-/-- never NaN on finite / `-inf` inputs, except at `(-inf, -inf)` -/
-theorem logaddexp_ne_nan (x y : X) (hx : IsFinOrNinf x) (hy : IsFinOrNinf y)
-    (hxy : ¬ (x = ninf ∧ y = ninf)) : Gen.logaddexp x y ≠ nan := by
-  obtain ⟨r, h, _⟩ := logaddexp_spec x y hx hy hxy
-  rw [h]; simp
+/-- never NaN on finite / `-inf` inputs — `(-inf, -inf)` included -/
+theorem logaddexp_ne_nan (x y : X) (hx : IsFinOrNinf x) (hy : IsFinOrNinf y) :
+    Gen.logaddexp x y ≠ nan := by
+  have h := logaddexp_spec x y hx hy
+  split_ifs at h
+  · rw [h]; simp
+  · obtain ⟨r, h, _⟩ := h
+    rw [h]; simp
 
-example : Gen.logaddexp (fin (-3)) ninf ≠ nan := logaddexp_ne_nan _ _ (by simp) (by simp) (by simp)
+example : Gen.logaddexp (fin (-3)) ninf ≠ nan := logaddexp_ne_nan _ _ (by simp) (by simp)
+example : Gen.logaddexp ninf ninf ≠ nan := logaddexp_ne_nan _ _ (by simp) (by simp)
+
+-- @site logaddexp
+/-- `logaddexp x y` agrees with `logsumexp [x, y]` whenever it is exact: an argument `-inf` (both included)
+    or `|x-y| < 37` -/
+theorem logaddexp_eq_logsumexp (x y : X) (hx : IsFinOrNinf x) (hy : IsFinOrNinf y)
+    (h : x = ninf ∨ y = ninf ∨ |x.toReal - y.toReal| < 37) :
+    Gen.logaddexp x y = Gen.logsumexp [x, y] := by
+  have hs := logaddexp_spec x y hx hy
+  have hl : ∀ z ∈ [x, y], IsFinOrNinf z := by
+    intro z hz
+    rcases List.mem_cons.mp hz with rfl | hz
+    · exact hx
+    · rcases List.mem_cons.mp hz with rfl | hz
+      · exact hy
+      · cases hz
+  rw [logsumexp_spec _ hl]
+  split_ifs at hs ⊢
+  · exact hs
+  · obtain ⟨r, h1, _, h3⟩ := hs
+    rw [h1, h3 h]
+
+example : Gen.logaddexp (fin (-3)) (fin (-7)) = Gen.logsumexp [fin (-3), fin (-7)] :=
+  logaddexp_eq_logsumexp _ _ (by simp) (by simp) (by right; right; norm_num [abs_of_pos])
 
 /-! ## (c) `cumsum`, `ln_binom`, `lnmv_gamma` over `R` -/
 
@@ -472,9 +530,13 @@ end C13
 #print axioms C13.logaddexp_fin
 #print axioms C13.logaddexp_fin_ninf
 #print axioms C13.logaddexp_ninf_fin
-#print axioms C13.logaddexp_counterexample
+#print axioms C13.logaddexp_ninf_ninf
+#print axioms C13.logaddexp_R_self
+#print axioms C13.logaddexp_fin_self
+#print axioms C13.logaddexp_fin_self_eq_log
 #print axioms C13.logaddexp_spec
 #print axioms C13.logaddexp_ne_nan
+#print axioms C13.logaddexp_eq_logsumexp
 #print axioms C13.cumsum_length
 #print axioms C13.cumsum_prefix_sums
 #print axioms C13.ln_binom_nat
